@@ -115,6 +115,12 @@ def c03_ticker_replace_rule : String := "ti.Step > 0 && newti.Step <= ti.Step"
 /-- order state/execution.go BlockExecutor.ApplyBlock -/
 def c05_applyBlock_order : List String := ["validateBlock", "execBlockOnProxyApp", "SaveABCIResponses", "updateState", "Commit", "Save"]
 
+/-- order consensus/replay.go State.catchupReplay -/
+def c05_catchup_order : List String := ["SearchForEndHeight", "IsDataCorruptionError", "WriteSync", "readReplayMessage"]
+
+/-- has consensus/replay.go State.catchupReplay -/
+def c05_catchup_strict_guard : Bool := true
+
 /-- has consensus/replay.go State.catchupReplay -/
 def c05_catchup_writes_missing_marker : Bool := true
 
@@ -197,7 +203,7 @@ def c06_median_pick : String := "median <= weightedTime.Weight"
 def c06_proposal_budget_vals : Bool := true
 
 /-- order state/validation.go validateBlock -/
-def c06_validate_order : List String := ["ValidateBasic", "HashConsensusParams", "VerifyCommit", "HasAddress", "After", "MedianTime", "ByteSize"]
+def c06_validate_order : List String := ["ValidateBasic", "HashConsensusParams", "VerifyCommit", "HasAddress", "MedianTime", "ByteSize"]
 
 /-- const types/validator_set.go MaxTotalVotingPower -/
 def c07_MaxTotalVotingPower : Int := 1152921504606846975
@@ -245,7 +251,7 @@ def c08_load_one_shot_increment : Bool := false
 def c08_load_single_increments : Bool := true
 
 /-- has types/validator_set.go computeNewPriorities -/
-def c08_new_priority_penalty : Bool := false
+def c08_new_priority_penalty : Bool := true
 
 /-- cond state/store.go dbStore.saveValidatorsInfo -/
 def c08_saveValidatorsInfo_stored_iff : String := "height == lastHeightChanged || height%valSetCheckpointInterval == 0"
@@ -667,6 +673,6 @@ def types_MaxBlockPartsCount : Int := 1601
 /-- const types/vote_set.go MaxVotesCount -/
 def types_MaxVotesCount : Int := 10000
 
-def factCount : Nat := 222
+def factCount : Nat := 224
 
 end Tmv.Facts
